@@ -63,6 +63,35 @@ def identify(payload):
     return None
 
 
+EXC_KINDS = ('runtime', 'runtime', 'value', 'conn-refused', 'broken-pipe', 'timeout-noargs', 'key', 'lookup', 'bare',
+             'not-implemented', 'os')
+
+
+def app_exception(world, msg):
+    """The exception a piece of scripted application code raises; its type is a property of the run (World.exc_kind)
+    so that containment is exercised with the exception classes the library treats specially elsewhere."""
+    kind = getattr(world, 'exc_kind', 'runtime')
+    if kind == 'value':
+        return ValueError(msg)
+    if kind == 'conn-refused':
+        return ConnectionRefusedError(111, msg)
+    if kind == 'broken-pipe':
+        return BrokenPipeError(32, msg)
+    if kind == 'timeout-noargs':
+        return TimeoutError()
+    if kind == 'key':
+        return KeyError(msg)
+    if kind == 'lookup':
+        return LookupError(msg)
+    if kind == 'bare':
+        return Exception()
+    if kind == 'not-implemented':
+        return NotImplementedError(msg)
+    if kind == 'os':
+        return OSError(5, msg)
+    return RuntimeError(msg)
+
+
 class World:
     def __init__(self):
         self.events = []      # dicts: t, kind, + fields ; single global order (wire + api)
@@ -159,7 +188,7 @@ class RecSubscriber(Subscriber):
         self.subscription = subscription
         self._rec('on_subscribe')
         if 'on_subscribe' in self.raise_in:
-            raise RuntimeError('subscriber %s raises in on_subscribe' % self.iid)
+            raise app_exception(self.world, 'subscriber %s raises in on_subscribe' % self.iid)
         if self.cancel_after == 0:
             self.do_cancel()
             return
@@ -174,7 +203,7 @@ class RecSubscriber(Subscriber):
         if is_complete:
             self.done.set()
         if 'on_next' in self.raise_in:
-            raise RuntimeError('subscriber %s raises in on_next' % self.iid)
+            raise app_exception(self.world, 'subscriber %s raises in on_next' % self.iid)
         if is_complete or self.cancelled:
             return
         if self.cancel_after is not None and self.received >= self.cancel_after:
@@ -199,13 +228,13 @@ class RecSubscriber(Subscriber):
         self._rec('on_error', err='%s: %s' % (type(exception).__name__, str(exception)[:80]))
         self.done.set()
         if 'on_error' in self.raise_in:
-            raise RuntimeError('subscriber %s raises in on_error' % self.iid)
+            raise app_exception(self.world, 'subscriber %s raises in on_error' % self.iid)
 
     def on_complete(self):
         self._rec('on_complete')
         self.done.set()
         if 'on_complete' in self.raise_in:
-            raise RuntimeError('subscriber %s raises in on_complete' % self.iid)
+            raise app_exception(self.world, 'subscriber %s raises in on_complete' % self.iid)
 
 
 async def _pace(spec):
@@ -249,7 +278,7 @@ class RecPublisher(Publisher, Subscription):
         self.subscriber = subscriber
         self.world.log('pub', who=self.who, iid=self.iid, dir=self.direction, ev='subscribed')
         if 'subscribe' in self.raise_in:
-            raise RuntimeError('publisher %s raises in subscribe' % self.iid)
+            raise app_exception(self.world, 'publisher %s raises in subscribe' % self.iid)
         subscriber.on_subscribe(self)
         if not self.elems:
             self._kick()
@@ -258,7 +287,7 @@ class RecPublisher(Publisher, Subscription):
         self.request_log.append(n)
         self.world.log('pub', who=self.who, iid=self.iid, dir=self.direction, ev='request', n=n)
         if 'request' in self.raise_in:
-            raise RuntimeError('publisher %s raises in request' % self.iid)
+            raise app_exception(self.world, 'publisher %s raises in request' % self.iid)
         self.credit = min(MAX_N, self.credit + n)
         self._kick()
 
@@ -267,7 +296,7 @@ class RecPublisher(Publisher, Subscription):
         self.cancelled = True
         self.world.log('pub', who=self.who, iid=self.iid, dir=self.direction, ev='cancel')
         if 'cancel' in self.raise_in:
-            raise RuntimeError('publisher %s raises in cancel' % self.iid)
+            raise app_exception(self.world, 'publisher %s raises in cancel' % self.iid)
 
     def _kick(self):
         if self.finished or self.cancelled:
@@ -334,7 +363,7 @@ class RecPublisher(Publisher, Subscription):
             self.subscriber.on_complete()
         elif t == 'error':
             self.world.log('emit_terminal', who=self.who, iid=self.iid, dir=self.direction, ev='error')
-            self.subscriber.on_error(RuntimeError('app-error-%d' % self.iid))
+            self.subscriber.on_error(app_exception(self.world, 'app-error-%d' % self.iid))
 
 
 class ScriptedHandler(RequestHandler):
@@ -418,4 +447,4 @@ class ScriptedHandler(RequestHandler):
         if self.on_close_hook is not None:
             await self.on_close_hook(rsocket)
         if 'on_close' in self.raise_in:
-            raise RuntimeError('on_close raises')
+            raise app_exception(self.world, 'on_close raises')
